@@ -19,6 +19,7 @@ ALSO = {"C07-3": ["C14"], "C03-3": ["C14"], "C08-4": ["C09"], "C08-3": ["C18"], 
 
 
 CHECKS_ONLY = False
+NO_SUITE = False
 
 
 def run(lane, ids):
@@ -33,13 +34,17 @@ def run(lane, ids):
                 meta = json.load(open(os.path.join(d, "meta.json")))
             except Exception:
                 meta = {}
+            if meta.get("obsolete_after_fix"):      # the fix removed what the change relied on: nothing left to report
+                out.append((sid, "obsolete", ["obsolete after " + str(meta["obsolete_after_fix"].get("commit"))], None))
+                print(out[-1], flush=True)
+                continue
             own = sid[:3] if sid[0] == "C" else str(meta.get("property", ""))[:3]
             props = []
             for q in [own] + ALSO.get(sid, []) + list((meta.get("trial") or {}).get("caught_by") or []):
                 if q and q not in props:
                     props.append(q)
             r = subprocess.run([sys.executable, os.path.join(V, "tools", "trial.py"), d, wt, ",".join(props), "quick", "--keep", sid]
-                               + (["--checks-only"] if CHECKS_ONLY else []),
+                               + (["--checks-only"] if CHECKS_ONLY else []) + (["--no-suite"] if NO_SUITE else []),
                                capture_output=True, text=True)
             txt = r.stdout
             try:
@@ -54,7 +59,10 @@ def run(lane, ids):
 
 
 def main():
-    global CHECKS_ONLY
+    global CHECKS_ONLY, NO_SUITE
+    if "--no-suite" in sys.argv:
+        NO_SUITE = True
+        sys.argv.remove("--no-suite")
     a = sys.argv[1:]
     if "--checks-only" in a:
         CHECKS_ONLY = True
